@@ -35,7 +35,7 @@ def cases(rng, tier):
         for f in ("sum", "np.sum", "mean", "counts", "column"):
             if tier == "quick" and rng.random() < 0.4:
                 continue
-            p = {"lens": lens, "f": f, "dtype": rng.choice(gens.DTYPES), "vseed": rng.randint(0, 9999), "mode": rng.choice(["small", "small", "big", "rare", "cancel"]),
+            p = {"lens": lens, "f": f, "dtype": rng.choice(gens.DTYPES), "vseed": rng.randint(0, 9999), "mode": rng.choice(["small", "small", "big", "rare", "cancel", "imin"]),
                  "derived": rng.choice(gens.DERIVATIONS)}
             if f == "column":
                 # (a column number beyond every row -- also beyond the 32-bit range -- selects nothing)
@@ -77,6 +77,11 @@ def _vals(p):
     if p["mode"] == "rare" and dt.kind == "f":
         # NaN / infinities / signed zeros among ordinary values (column sums and means must propagate them as numpy does)
         return np.array([rnd.choice([float("nan"), float("inf"), float("-inf"), -0.0, 1.5, 2.5, 4.0, 7.0]) for _ in range(n)], dtype=dt)
+    if p["mode"] == "imin" and dt.kind == "i" and n:
+        # small cells and ONE cell equal to the dtype's most negative value (whose magnitude no signed integer holds)
+        v = gens.cell_values(p["dtype"], n, rnd, mode="small")
+        v[rnd.randrange(n)] = np.iinfo(dt).min
+        return v
     if p["mode"] == "cancel":
         return gens.cell_values(p["dtype"], n, rnd, mode="cancel")
     return gens.cell_values(p["dtype"], n, rnd, mode="small")
